@@ -65,6 +65,8 @@ type Env struct {
 	// Direct is a second gRPC client connected straight to the server (Grpc mode with Proxy).
 	Direct fs_db.DB
 	proxy  *cutProxy
+	// Stranded counts the times Drain found deferred jobs without a flusher.
+	Stranded int
 }
 
 // Cfg builds the configuration for the options.
@@ -228,6 +230,10 @@ func (e *Env) Drain() error {
 				// possibly the stuck state; give a deferred Send in progress a moment, then let the barrier decide
 				time.Sleep(2 * time.Millisecond)
 				if st2 := pool.VerifState(); st2.Deferred > 0 && !st2.FlusherActive {
+					// deferred jobs and nobody to deliver them, seen twice under the pool's own
+					// list mutex: they stay until some later Send happens to time out (the
+					// barrier below would be that Send, so remember what was seen)
+					e.Stranded++
 					break
 				}
 			}
